@@ -3,6 +3,7 @@ import KoordVerif.Proofs.C15ExtNs
 import KoordVerif.Proofs.C15ExtUp
 import KoordVerif.Proofs.C15ExtInf
 import KoordVerif.Proofs.C15ExtRace
+import KoordVerif.Proofs.C15ExtStep
 /-
 C15 — property theorems (DESIGN.md §4 C15, Appendix A.7).
 
@@ -1601,5 +1602,67 @@ theorem zero_entry_edit_checked :
     sameFields exB { exB with mx := [some 8, some 0] } = false ∧
     (step 2 exS (.upd { exB with mx := [some 8, some 0] } false false)).2 = false ∧
     (step 2 exS (.upd exB false false)).2 = true := by decide
+
+/-! ### 20. the min-sum clause as a TRANSITION clause (round 7; Proofs/C15ExtStep.lean)
+The state invariant `MinSum` exempts a record carrying allow-force-update / is-root as a parent too (it may lower its
+own min unchecked).  A request that does not itself carry one of the two labels is exempt from nothing. -/
+
+/-- an admitted create without a bypass label below a quota: its min plus the mins of ALL recorded brothers is at most
+    the parent's recorded min — whatever labels the parent carries (a tree root's children ARE checked against it). -/
+theorem checked_add_brothers_bound (d : Nat) (s : Topo) (q : QI) (sw : Bool)
+    (h : (step d s (.add q sw)).2 = true) (hn : q.name ≠ 0) (hf : q.force = false) (hr : q.treeRoot = false)
+    (hp : q.parent ≠ 0) :
+    ∃ p, find s.info q.parent = some p ∧
+      ∀ k, k < d → minSum s q.parent (some q.name) k + q.mn.val k ≤ p.mn.val k :=
+  add_checked_brothers_bound d s q sw h hn hf hr hp
+
+/-- the same for an admitted update that is really checked (not taken by the unchanged-fields shortcut). -/
+theorem checked_update_brothers_bound (d : Nat) (s : Topo) (q : QI) (sw hpods : Bool)
+    (h : (step d s (.upd q sw hpods)).2 = true)
+    (hs : ∀ o, find s.info q.name = some o → sameFields o q = false)
+    (hn : q.name ≠ 0) (hf : q.force = false) (hr : q.treeRoot = false) (hp : q.parent ≠ 0) :
+    ∃ p, find s.info q.parent = some p ∧
+      ∀ k, k < d → minSum s q.parent (some q.name) k + q.mn.val k ≤ p.mn.val k :=
+  upd_checked_brothers_bound d s q sw hpods h hs hn hf hr hp
+
+/-- checkMinQuotaValidate's second check: the recorded children of an unlabelled request fit under its new min. -/
+theorem checked_children_bound (d : Nat) (s : Topo) (q : QI)
+    (h : minCheck d s q = true) (hf : q.force = false) (hr : q.treeRoot = false) (hk : hasKids s q.name = true) :
+    ∀ k, k < d → minSum s q.name none k ≤ q.mn.val k :=
+  minCheck_children_bound d s q h hf hr hk
+
+/-- witness: below a tree root (is-root=true, min 10) with a child of min 6, a second child of min 6 is rejected, one
+    of min 4 admitted, raising the first child to 11 rejected, to 10 admitted. -/
+theorem tree_root_children_are_checked :
+    (validAdd 1 init stepT false).2 = true ∧ (validAdd 1 (validAdd 1 init stepT false).1 (stepC 4 6) false).2 = true ∧
+    (validAdd 1 stepS (stepC 5 6) false).2 = false ∧ (validAdd 1 stepS (stepC 5 4) false).2 = true ∧
+    (validUpdate 1 stepS (stepC 4 11) false false).2 = false ∧ (validUpdate 1 stepS (stepC 4 10) false false).2 = true :=
+  is_root_parent_checks_children
+
+/-- what is exempt is the quota that CARRIES the label: the same over-sized child is admitted once it carries is-root
+    itself (reading note (ii)). -/
+theorem tree_root_label_exempts_the_request :
+    (validAdd 1 stepS { stepC 5 6 with treeRoot := true } false).2 = true :=
+  is_root_request_not_checked
+
+/-! ### 21. a STALE OldObject — the recorded info wins (round 7; Proofs/C15ExtStep.lean, Model/C15Inf.lean `validUpdateO`) -/
+
+/-- an update whose OldObject lags behind the recorded object (an earlier update was admitted but never persisted) is
+    decided and recorded exactly like the update against the recorded object, provided the stale object declares the
+    same namespaces and takes the same way through the unchanged-fields shortcut (checked by the harness on every
+    generated stale request): old parent / is-parent / tree id of the bookkeeping are the RECORDED ones. -/
+theorem stale_old_object_is_recorded_update (d : Nat) (s : Topo) (a o q : QI) (sw hpods : Bool)
+    (ho : find s.info q.name = some o) (hns : a.ns = o.ns) (hsf : sameFields a q = sameFields o q) :
+    validUpdateO d s (some a) q sw hpods = validUpdate d s q sw hpods :=
+  stale_old_object_recorded_wins d s a o q sw hpods ho hns hsf
+
+/-- witness: quota 4 was moved from tree root 3 under tree root 6 (admitted, not persisted); the next update carries
+    the stale OldObject (parent 3) and moves it back to 3 with another min: it is unlinked from its RECORDED parent 6. -/
+theorem stale_reparent_uses_recorded_parent :
+    isKid stepS2 6 4 = true ∧ isKid stepS2 3 4 = false ∧
+    (validUpdateO 1 stepS2 (some (stepC 4 6)) (stepC 4 5) false false).2 = true ∧
+    isKid (validUpdateO 1 stepS2 (some (stepC 4 6)) (stepC 4 5) false false).1 6 4 = false ∧
+    isKid (validUpdateO 1 stepS2 (some (stepC 4 6)) (stepC 4 5) false false).1 3 4 = true :=
+  stale_reparent_unlinks_recorded_parent
 
 end KoordVerif.C15
